@@ -140,10 +140,17 @@ func ZZ_C17_H4() {
 	c.SetPathBytes(pth)
 	c.SetMaxAge(maxAge)
 	c.SetHTTPOnly(zz.Bool("httpOnly"))
-	c.SetSecure(zz.Bool("secure"))
+	sec := zz.Bool("secure")
 	c.SetPartitioned(zz.Bool("partitioned"))
 	ss := CookieSameSite(zz.Range("sameSite", 0, 4))
-	c.SetSameSite(ss)
+	// both setter orders: SetSameSite(None) turns Secure on, a later SetSecure(false) clears it
+	if zz.Choose("secureSetLast", 2) == 1 {
+		c.SetSameSite(ss)
+		c.SetSecure(sec)
+	} else {
+		c.SetSecure(sec)
+		c.SetSameSite(ss)
+	}
 	wantSecure := c.Secure()
 	wantHTTPOnly := c.HTTPOnly()
 	wantPart := c.Partitioned()
@@ -213,4 +220,74 @@ func ZZ_C17_H3() {
 	zz.Assert("query", bytes.Equal(v.QueryString(), u.QueryString()))
 	zz.Assert("fragment", bytes.Equal(v.Hash(), u.Hash()))
 	zz.Assert("full-uri-fixed-point", bytes.Equal(v.FullURI(), full))
+}
+
+// ZZ_C17_H5: agreement with net/url's query rule on symbolic query text, parsed into an Args
+// object that already served an earlier query (so recycled key/value buffers are in play):
+// on every text net/url.ParseQuery accepts (well-formed escapes, no ';'), the ordered list of
+// pairs equals the reference list (entries with empty key and empty value excepted), value-less
+// keys included, and Peek agrees with VisitAll.
+func ZZ_C17_H5() {
+	n := zz.Range("n", 0, zz.Param("N", 5))
+	q := zz.Bytes("q", n)
+	type kv struct{ k, v []byte }
+	var want []kv
+	// reference: split on '&', cut at the first '=', unescape both halves
+	start := 0
+	for i := 0; i <= len(q); i++ {
+		if i < len(q) && q[i] != '&' {
+			zz.Assume(q[i] != ';')
+			continue
+		}
+		seg := q[start:i]
+		start = i + 1
+		if len(seg) == 0 {
+			continue
+		}
+		eq := -1
+		for j, c := range seg {
+			if c == '=' {
+				eq = j
+				break
+			}
+		}
+		var k, v []byte
+		var ok1, ok2 bool
+		if eq < 0 {
+			k, ok1 = zzRefUnescape(seg)
+			ok2 = true
+		} else {
+			k, ok1 = zzRefUnescape(seg[:eq])
+			v, ok2 = zzRefUnescape(seg[eq+1:])
+		}
+		zz.Assume(ok1 && ok2)
+		if len(k) > 0 || len(v) > 0 {
+			want = append(want, kv{k, v})
+		}
+	}
+	var a Args
+	if zz.Choose("reused", 2) == 1 {
+		a.ParseBytes([]byte("user=alice&k=v&z=w&y"))
+	}
+	a.ParseBytes(append([]byte(nil), q...))
+	zz.Cover("reached-assert", true)
+	zz.Cover("two-entries", len(want) >= 2)
+	zz.Assert("same-length", a.Len() == len(want))
+	if a.Len() != len(want) {
+		return
+	}
+	i := 0
+	same := true
+	a.VisitAll(func(k, v []byte) {
+		if !bytes.Equal(k, want[i].k) || !bytes.Equal(v, want[i].v) {
+			same = false
+		}
+		i++
+	})
+	zz.Assert("same-ordered-pairs-as-net-url-rule", same)
+	if len(want) > 0 {
+		// Peek returns the value of the first entry with that key
+		first := want[0]
+		zz.Assert("peek-agrees", bytes.Equal(a.Peek(string(first.k)), first.v))
+	}
 }
